@@ -23,11 +23,14 @@ RULE = ("case = action sequence over {inbound connection of peer k (also a secon
 ASSUMPTIONS = ["a connection belongs to a peer when the node dialled that peer, or when it is inbound and a 2001 CEA "
                "answering that peer's CER was observed on the wire",
                "between 'some configured peer has a connection' and 'a configured peer is ready' the readiness flag "
-               "may have either value"]
+               "may have either value",
+               "an application registered on the running node (action late_app, outside the statement's alphabet) is "
+               "judged like the others, except that connections already ready at its registration do not count towards "
+               "'a configured peer has a ready connection'"]
 TIMEOUT = {"quick": 900, "thorough": 3600}
 SCTP_CLONES = {"quick": ['walk3', 'exh11'], "thorough": ['walk14', 'walk15', 'exh15']}
 ACTIONS = ["in1", "in2", "in3", "cer_ok", "cer_unknown", "cer_nocommon", "cea_ok", "cea_rej", "dpr", "gone", "reset",
-           "adv_ce", "adv_idle", "adv_to_dwr", "dwa", "node_close", "req", "werr"]
+           "adv_ce", "adv_idle", "adv_to_dwr", "dwa", "node_close", "req", "werr", "late_app"]
 NAMES = ["peer1.verif.example", "peer2.verif.example", "peer3.verif.example"]
 
 
@@ -168,6 +171,17 @@ class Case:
             g.sp.node_sock.send_plan.append(("err", errno.EPIPE))
             hbh, e2e = self.ids()
             g.sp.send(M.dwr(g.owner, self.REALM, hbh=hbh, e2e=e2e))
+        elif a == "late_app":
+            # an application is registered on the running node (documented): from now on its readiness follows the
+            # connections of its peer like that of the applications registered before the start
+            if "late" in self.w.apps:
+                return False
+            self.w.late_app("late", 4, [NAMES[2]])
+            # connections that are ready already are not announced to an application registered afterwards (outside the
+            # statement's alphabet; noted in DESIGN section 6): for this application "a configured peer has a ready
+            # connection" is judged over connections that become ready from now on
+            self.late_excluded = {id(g) for g in self.gts if g.open}
+            self.run.cov["applications_added_at_run_time"] = self.run.cov.get("applications_added_at_run_time", 0) + 1
         elif a == "adv_ce":
             h.advance(4)
         elif a == "adv_idle":
@@ -292,7 +306,8 @@ class Case:
                         c = h.conn_of(g.sp)
                         if c is not None:
                             any_conn = True
-                            if c.state in pm.PEER_READY_STATES:
+                            if c.state in pm.PEER_READY_STATES and not (
+                                    tag == "late" and id(g) in getattr(self, "late_excluded", ())):
                                 any_ready = True
             flag = app.is_ready.is_set()
             if any_ready and not flag:
@@ -361,9 +376,24 @@ class Run:
 STARTS = ["dial", "no_dial", "one_ready", "two_ready", "two_ready_rev"]
 
 
+# histories around an application registered on the running node: before / after a first removal of a connection,
+# its peer connecting afterwards and leaving in each way
+DIRECTED = [
+    ("no_dial", ["in1", "cer_ok", "gone", "late_app", "in3", "cer_ok", "gone"]),
+    ("no_dial", ["late_app", "in3", "cer_ok", "reset", "in3", "cer_ok", "dpr", "gone"]),
+    ("one_ready", ["gone", "late_app", "in3", "cer_ok", "dpr", "gone"]),
+    ("one_ready", ["in3", "cer_ok", "late_app", "gone", "in3", "cer_ok", "adv_idle"]),
+    ("dial", ["cea_rej", "late_app", "in3", "cer_ok", "node_close"]),
+    ("two_ready", ["dpr", "late_app", "in3", "cer_ok", "werr"]),
+]
+
+
 def run_shard(spec):
     run = Run()
     rng = random.Random(h64("C13", spec["seed"], spec["name"]))
+    if spec["kind"] == "exhaustive" and spec["part"] == 0:
+        for st, script in DIRECTED:
+            run.one(st, script)
     if spec["kind"] == "exhaustive":
         i = 0
         for d in range(1, spec["depth"] + 1):
